@@ -56,7 +56,7 @@ def plan(tier, seed):
     for w, mod in sorted(spec_writers.all_writers().items()):
         for i in range(1 if tier == "quick" else 40):
             cases.append({"kind": "spec", "writer": w, "i": i, "seed": seed})
-        if w in ("gamess", "qchemlog", "charmm", "extxyz", "gromacs", "fchk", "json_qcschema", "chgcar", "locpot", "cube", "poscar"):
+        if w in ("gamess", "qchemlog", "charmm", "extxyz", "gromacs", "fchk", "json_qcschema", "chgcar", "locpot", "cube", "poscar", "gaussianinput"):
             # formats carrying masses, cells, grids, moments: every class (directed reproduction of the unit findings)
             for klass in mod.CLASSES:
                 if klass not in getattr(mod, "NOT_ASSERTED", {}):
